@@ -110,6 +110,18 @@ fn data_independence(seed: u64, idx: u64, rep: &mut Report) {
             d2.copy_from_slice(&rng.bytes(32));
         }
     }
+    if rng.chance(1, 4) {
+        // digests that mean something outside the table: BLAKE3 of the empty input, of one zero byte, all zeros, all ones
+        let special: [[u8; 32]; 4] = [*blake3::hash(b"").as_bytes(), *blake3::hash(&[0u8]).as_bytes(), [0u8; 32], [0xFFu8; 32]];
+        let k = rng.below(3) as usize;
+        let v = special[rng.below(4) as usize];
+        match k {
+            0 => d0 = v,
+            1 => d1 = v,
+            _ => d2 = v,
+        }
+        rep.count("cases_with_a_real_world_special_digest", 1);
+    }
     if d0 == d1 || d1 == d2 || d0 == d2 {
         return;
     }
